@@ -427,6 +427,18 @@ impl<'a> Gen<'a> {
                 if self.rng.chance(1, 5) {
                     let k = self.recent_or_key();
                     n.writes.push(WriteOp::Remove { k });
+                } else if self.rng.chance(1, 40) {
+                    // many entries at once: 1 .. 300, around the powers of two and hundreds
+                    let cnt = *self.rng.pick(&[1u16, 15, 16, 17, 31, 33, 64, 99, 100, 101, 128, 129, 255, 257, 300]);
+                    let tag = self.rng.below(2) as u8;
+                    if self.rng.chance(1, 4) {
+                        n.writes.push(WriteOp::BulkRemove { tag, n: cnt });
+                    } else {
+                        n.writes.push(WriteOp::Bulk { tag, n: cnt });
+                    }
+                } else if self.rng.chance(1, 8) {
+                    let k = self.recent_or_key();
+                    n.writes.push(WriteOp::Restore { k, rewrite_only: self.rng.chance(1, 3) });
                 } else {
                     let k = self.recent_or_key();
                     let v = format!("w{}-{}", nid, self.uniq()).into_bytes();
@@ -469,6 +481,16 @@ impl<'a> Gen<'a> {
         n.data = match self.rng.below(5) {
             0 | 1 => None,
             2 => Some(vec![]),
+            3 if self.rng.chance(1, 6) => {
+                // lengths around the one-byte / two-byte boundaries of length-prefixed encodings
+                let len = *self.rng.pick(&[1usize, 126, 127, 128, 129, 255, 256, 300, 16383, 16384, 20000]);
+                let mut d = format!("d{}-", nid).into_bytes();
+                while d.len() < len {
+                    d.push(b'a' + (d.len() % 23) as u8);
+                }
+                d.truncate(len);
+                Some(d)
+            }
             _ => Some(format!("d{}", nid).into_bytes()),
         };
         if depth < self.p.max_depth && self.nodes_left > 0 {
@@ -667,7 +689,9 @@ impl<'a> Gen<'a> {
     }
 
     fn kind(&mut self) -> CodeKind {
-        if self.pc(self.p.empty_kind) {
+        if self.rng.chance(1, 12) {
+            CodeKind::WrappedBare
+        } else if self.pc(self.p.empty_kind) {
             CodeKind::WrappedEmpty
         } else if self.rng.chance(1, 2) {
             CodeKind::Wrapped
@@ -783,7 +807,7 @@ fn gen_case(rng: &mut Rng, cfg: &Cfg) -> Case {
     }
     let adv_rate = if cfg.property == "C08" || cfg.property == "C11" { 4 } else { 12 };
     let adv_addr = g.rng.chance(1, adv_rate);
-    Case { prefix: g.rng.below(4) as u8, n_accounts, n_denoms, n_validators, init_balances, module_faults, unbonding_secs, module_cfg, adv_addr, ops }
+    Case { prefix: g.rng.below(4) as u8, n_accounts, n_denoms, n_validators, init_balances, module_faults, unbonding_secs, module_cfg, adv_addr, creator_checksums: g.rng.chance(1, 5), ops }
 }
 
 // ------------------------------------------------------------------ minimisation
@@ -1064,6 +1088,11 @@ impl Engine for ChainSim {
         if case.prefix != 0 {
             let mut c = case.clone();
             c.prefix = 0;
+            out.push(c);
+        }
+        if case.creator_checksums {
+            let mut c = case.clone();
+            c.creator_checksums = false;
             out.push(c);
         }
         if case.adv_addr {
